@@ -54,28 +54,29 @@ DomainVerdict(c) ==
   ELSE <<"ok">>
 
 \* ------------------------------------------------------------------ FR3D listing
-TemplateAgrees(c) ==
+TemplateAgrees(c, P) ==
   \/ Len(c.tmpl) = 0
-  \/ /\ Len(c.tmpl) = Len(c.lines)
-     /\ \A k \in 1..Len(c.lines) :
-          /\ c.tmpl[k].kept = (LineKind(c.lines[k]) = "data")
-          /\ c.tmpl[k].kept => c.tmpl[k].cat = InteractionOf(c.lines[k]).cat
+  \/ /\ Len(c.tmpl) = Len(P)
+     /\ \A k \in 1..Len(P) :
+          /\ c.tmpl[k].kept = (P[k].kind = "data")
+          /\ c.tmpl[k].kept => c.tmpl[k].cat = P[k].item.cat
 
 ListingVerdict(c) ==
   IF c.result.err # "" THEN <<"fail", "Fr3dNeverRaises", c.result.err>>
-  ELSE IF ~LinesInRange(c.lines) THEN <<"fail", "InputRange", "harness">>
-  ELSE IF ~TemplateAgrees(c) THEN <<"fail", "TemplateAgrees", "harness">>
+  ELSE LET P == ParseAll(c.lines) IN
+  IF ~ParsedInRange(P) THEN <<"fail", "InputRange", "harness">>
+  ELSE IF ~TemplateAgrees(c, P) THEN <<"fail", "TemplateAgrees", "harness">>
   ELSE LET R == [k \in 1..Len(c.result.items) |-> ItemOf(c.result.items[k])]
-           E == ExpectedInteractions(c.lines) IN
+           E == ExpectedOfParsed(P) IN
        IF ~EachLineYieldsOne(R, E) THEN <<"fail", "LineYieldsExactlyOne", c.via>>
        ELSE IF ~OthersKept(R, E) THEN <<"fail", "UnknownKeptAsOther", c.via>>
        ELSE IF ~NothingElse(R, E) \/ Len(R) # Len(E) THEN <<"fail", "MalformedSkipped", c.via>>
        ELSE <<"ok">>
 
 \* ------------------------------------------------------------------ DSSR document
-DssrTemplateAgrees(S, c) ==
-  /\ \A k \in 1..Len(c.pairs) : c.pairs[k].tkept # "" => ((c.pairs[k].tkept = "yes") = PairKept(S, c.pairs[k]))
-  /\ \A k \in 1..Len(c.stacks) : c.stacks[k].tsteps >= 0 => c.stacks[k].tsteps = Len(StackSteps(S, c.stacks[k]))
+DssrTemplateAgrees(N, c) ==
+  /\ \A k \in 1..Len(c.pairs) : c.pairs[k].tkept # "" => ((c.pairs[k].tkept = "yes") = PairKept(N, c.pairs[k]))
+  /\ \A k \in 1..Len(c.stacks) : c.stacks[k].tsteps >= 0 => c.stacks[k].tsteps = Len(StackSteps(N, c.stacks[k]))
 
 HasDunderLw(c) == \E k \in 1..Len(c.pairs) : c.pairs[k].lwkind = "str" /\ c.pairs[k].lw \in DunderNames
 
@@ -86,12 +87,12 @@ ExplainedBy(c, clause, dev) ==
   /\ c.result.err = "KeyError" /\ HasDunderLw(c)
 
 DssrRequired(c) ==
-  LET S == c.residues IN
-  IF ~NamesDistinct(S) THEN <<"fail", "InputDistinct", "harness">>
-  ELSE IF ~DssrTemplateAgrees(S, c) THEN <<"fail", "TemplateAgrees", "harness">>
+  LET N == NameTable(c.residues) IN
+  IF ~NamesDistinct(N) THEN <<"fail", "InputDistinct", "harness">>
+  ELSE IF ~DssrTemplateAgrees(N, c) THEN <<"fail", "TemplateAgrees", "harness">>
   ELSE IF c.result.err # "" THEN <<"fail", "DssrPairsExact", c.result.err>>
-  ELSE IF ~BagEq(c.result.bp, ExpectedPairs(S, c.pairs)) THEN <<"fail", "DssrPairsExact", c.via>>
-  ELSE IF ~BagEq(c.result.st, ExpectedStackings(S, c.stacks)) THEN <<"fail", "DssrStacksExact", c.via>>
+  ELSE IF ~BagEq(c.result.bp, ExpectedPairs(N, c.pairs)) THEN <<"fail", "DssrPairsExact", c.via>>
+  ELSE IF ~BagEq(c.result.st, ExpectedStackings(N, c.stacks)) THEN <<"fail", "DssrStacksExact", c.via>>
   ELSE <<"ok">>
 
 DssrVerdict(c) ==
